@@ -95,10 +95,12 @@ func NewDnsConn(opt TraditionalDnsConnOpts, conn NetConn) *TraditionalDnsConn {
 func (dc *TraditionalDnsConn) exchange(ctx context.Context, q []byte) (*[]byte, error) {
 	select {
 	case <-dc.closeNotify:
+		(*tdcOneTimeExchanger)(dc).WithdrawReserved()
 		return nil, ErrTDCClosed
 	default:
 	}
 
+	// addQueueC consumes the reservation made by ReserveNewQuery.
 	assignedQid, respChan := dc.addQueueC()
 	if respChan == nil {
 		return nil, ErrTDCTooManyQueries
@@ -252,9 +254,12 @@ func (dc *TraditionalDnsConn) queueLen() int {
 // addQueueC assigns a qid and add it to the queue.
 // It returns a nil c if queue has too many queries.
 // Caller must call deleteQueueC to release the qid in queue.
+// The caller's reservation (see ReserveNewQuery) is released here: from now on
+// the query is counted by its queue entry, not twice.
 func (dc *TraditionalDnsConn) addQueueC() (qid uint16, c chan *[]byte) {
 	c = make(chan *[]byte, 1) // buffered: readLoop hands over without blocking, possibly before the caller waits
 	dc.queueMu.Lock()
+	dc.reservedQuery--
 	for i := 0; i < 100; i++ {
 		qid = dc.nextQid
 		dc.nextQid++
@@ -296,7 +301,7 @@ type tdcOneTimeExchanger TraditionalDnsConn
 var _ ReservedExchanger = (*tdcOneTimeExchanger)(nil)
 
 func (ote *tdcOneTimeExchanger) ExchangeReserved(ctx context.Context, q []byte) (resp *[]byte, err error) {
-	defer ote.WithdrawReserved()
+	// exchange releases the reservation (when it registers the query, or on its early return).
 	return (*TraditionalDnsConn)(ote).exchange(ctx, q)
 }
 
